@@ -19,6 +19,11 @@ definitions, instantiated with floats, are what the driver runs against the real
 The conversion matrices `conv a b` (orientation `a` → `b` at the date of the state) and `toLocal`
 are parameters; what is assumed about them is stated explicitly (`Laws`, `LocOrth`, `PosShape`)
 and is C02's / `local_orthonormal`'s conclusion.
+
+History: until /repo commit d229088 the setter re-framed its private state copy; the model then had
+a `reframeOrb` step, `path_characterised` described a path-dependent matrix, and only
+`path_independent_partial` was provable (counter-witness in Witness/C14.lean, now restated about
+`runOld`).  The model follows the repaired code: `path_independent` is the full statement.
 -/
 namespace BeyondVerif.C14
 open BeyondVerif.Cov Matrix
@@ -52,21 +57,13 @@ variable (E : RealEnv F n)
 def hopM (s : St F (Matrix n n ℝ) (n → ℝ)) (t : Tag F) : Matrix n n ℝ :=
   if t = s.tag then 1 else hopMat E.env s t
 
-omit [Fintype n] [DecidableEq n] in
-@[simp] theorem reframeOrb_mat (E : Env F (Matrix n n ℝ) (n → ℝ)) (s : St F (Matrix n n ℝ) (n → ℝ)) (f : F) :
-    (reframeOrb E s f).mat = s.mat ∧ (reframeOrb E s f).tag = s.tag ∧ (reframeOrb E s f).orbFrame = s.orbFrame := by
-  unfold reframeOrb; split <;> simp
-
 /-- **Each hop is a congruence** `C ↦ M C Mᵀ` with `M = m2 · m1` of the setter. -/
 theorem hop_congruence (s : St F (Matrix n n ℝ) (n → ℝ)) (t : Tag F) :
     (setFrame E.env s t).mat = hopM E s t * s.mat * (hopM E s t)ᵀ := by
   unfold setFrame hopM
   by_cases h : t = s.tag
   · simp [h]
-  · simp only [h, if_false]
-    cases t with
-    | loc k => rfl
-    | frame f => simp only [(reframeOrb_mat _ _ _).1]; rfl
+  · simp only [h, if_false]; rfl
 
 /-- any predicate on matrices that is closed under congruence survives every sequence of hops -/
 theorem run_closed (P : Matrix n n ℝ → Prop) (hP : ∀ M C, P C → P (M * C * Mᵀ))
@@ -120,109 +117,79 @@ theorem charpoly_orth_conj (A C : Matrix m m ℝ) (h : A * Aᵀ = 1) : (A * C * 
 
 end posblock
 
-/-! ## All sequences: what the current code computes -/
+/-! ## All sequences: path independence -/
 
 /-- the state right after `Cov(sv, C0, sv.frame)` for a state `x0` given in frame `F0` -/
 def init (F0 : F) (x0 : n → ℝ) (C0 : Matrix n n ℝ) : St F (Matrix n n ℝ) (n → ℝ) :=
   St.new F0 x0 (.frame F0) C0
 
-/-- the matrix the code has applied to `C0` in state `s`: the conversion from the original frame
-for a frame tag, `to_local` **of the private copy as it is now** for a local tag -/
-def Nmat (F0 : F) (s : St F (Matrix n n ℝ) (n → ℝ)) : Matrix n n ℝ :=
-  match s.tag with
+/-- the matrix the property requires for target `t`: the conversion `F0 → f` for a frame, the
+QSW/TNW axes **of the original inertial state** for a local target — it depends on `t` and on the
+original state only -/
+def Mt (E : RealEnv F n) (F0 : F) (x0 : n → ℝ) : Tag F → Matrix n n ℝ
   | .frame f => E.conv F0 f
-  | .loc k => E.toLocal k s.orb
+  | .loc k => E.toLocal k x0
 
-/-- `to_local` is an orthogonal matrix on every re-framed image of the original state -/
-def LocOrth (F0 : F) (x0 : n → ℝ) : Prop :=
-  ∀ k g, (E.toLocal k (E.conv F0 g *ᵥ x0))ᵀ * E.toLocal k (E.conv F0 g *ᵥ x0) = 1
+/-- `to_local` of the original state is an orthogonal matrix (conclusion of `local_orthonormal`) -/
+def LocOrth (x0 : n → ℝ) : Prop := ∀ k, (E.toLocal k x0)ᵀ * E.toLocal k x0 = 1
 
-/-- invariant of every reachable state -/
+/-- invariant of every reachable state: the bookkeeping never moves, the matrix is the required one -/
 structure Inv (F0 : F) (x0 : n → ℝ) (C0 : Matrix n n ℝ) (s : St F (Matrix n n ℝ) (n → ℝ)) : Prop where
   orbFrame : s.orbFrame = F0
-  cur : ∀ f, s.tag = .frame f → s.orbCur = f
-  orb : s.orb = E.conv F0 s.orbCur *ᵥ x0
-  mat : s.mat = Nmat E F0 s * C0 * (Nmat E F0 s)ᵀ
+  orbCur : s.orbCur = F0
+  orb : s.orb = x0
+  mat : s.mat = Mt E F0 x0 s.tag * C0 * (Mt E F0 x0 s.tag)ᵀ
 
 variable {E}
 
-theorem inv_init (hL : Laws E) (F0 : F) (x0 : n → ℝ) (C0 : Matrix n n ℝ) : Inv E F0 x0 C0 (init F0 x0 C0) := by
-  refine ⟨rfl, ?_, ?_, ?_⟩
-  · intro f h; simp only [init, St.new, Tag.frame.injEq] at h; simp [init, St.new, h]
-  · simp [init, St.new, hL.conv_self]
-  · simp [init, St.new, Nmat, hL.conv_self]
+theorem inv_init (hL : Laws E) (F0 : F) (x0 : n → ℝ) (C0 : Matrix n n ℝ) : Inv E F0 x0 C0 (init F0 x0 C0) :=
+  ⟨rfl, rfl, rfl, by simp [init, St.new, Mt, hL.conv_self]⟩
 
-theorem m1_mul_N (hL : Laws E) {F0 : F} {x0 : n → ℝ} {C0 : Matrix n n ℝ} (hO : LocOrth E F0 x0)
-    {s : St F (Matrix n n ℝ) (n → ℝ)} (hs : Inv E F0 x0 C0 s) : m1 E.env s * Nmat E F0 s = 1 := by
-  unfold m1 Nmat
+/-- `m1` undoes what has been applied so far -/
+theorem m1_mul_Mt (hL : Laws E) {F0 : F} {x0 : n → ℝ} {C0 : Matrix n n ℝ} (hO : LocOrth E x0)
+    {s : St F (Matrix n n ℝ) (n → ℝ)} (hs : Inv E F0 x0 C0 s) : m1 E.env s * Mt E F0 x0 s.tag = 1 := by
+  unfold m1
   cases htag : s.tag with
-  | loc k =>
-    simp only [RealEnv.env]
-    rw [hs.orb]; exact hO k _
+  | loc k => simp only [RealEnv.env, Mt, hs.orb]; exact hO k
   | frame f =>
-    simp only [RealEnv.env, hs.orbFrame]
+    simp only [RealEnv.env, Mt, hs.orbFrame]
     by_cases hf : f = F0
     · simp [hf, hL.conv_self]
-    · simp only [ne_eq, hf, not_false_eq_true, if_true]
-      rw [hL.conv_comp, hL.conv_self]
+    · simp only [ne_eq, hf, not_false_eq_true, if_true]; rw [hL.conv_comp, hL.conv_self]
 
-theorem inv_setFrame (hL : Laws E) {F0 : F} {x0 : n → ℝ} {C0 : Matrix n n ℝ} (hO : LocOrth E F0 x0)
-    {s : St F (Matrix n n ℝ) (n → ℝ)} (hs : Inv E F0 x0 C0 s) (t : Tag F) : Inv E F0 x0 C0 (setFrame E.env s t) := by
+/-- `m2` is the required matrix of the target -/
+theorem m2_eq_Mt (hL : Laws E) {F0 : F} {x0 : n → ℝ} {C0 : Matrix n n ℝ}
+    {s : St F (Matrix n n ℝ) (n → ℝ)} (hs : Inv E F0 x0 C0 s) (t : Tag F) : m2 E.env s t = Mt E F0 x0 t := by
+  unfold m2
+  cases t with
+  | loc k => simp only [RealEnv.env, Mt, hs.orb]
+  | frame g =>
+    simp only [RealEnv.env, Mt, hs.orbFrame]
+    by_cases hg : F0 = g
+    · simp [hg, hL.conv_self]
+    · simp [hg]
+
+theorem inv_setFrame (hL : Laws E) {F0 : F} {x0 : n → ℝ} {C0 : Matrix n n ℝ} (hO : LocOrth E x0)
+    {s : St F (Matrix n n ℝ) (n → ℝ)} (hs : Inv E F0 x0 C0 s) (t : Tag F) :
+    Inv E F0 x0 C0 (setFrame E.env s t) ∧ (setFrame E.env s t).tag = t := by
   unfold setFrame
   by_cases h : t = s.tag
-  · simpa [h] using hs
-  · simp only [h, if_false]
-    have key : ∀ N' : Matrix n n ℝ, m2 E.env s t = N' →
-        (hopMat E.env s t * s.mat * (hopMat E.env s t)ᵀ) = N' * C0 * N'ᵀ := by
-      intro N' hN'
-      have h1 : hopMat E.env s t * Nmat E F0 s = N' := by
-        show (m2 E.env s t * m1 E.env s) * Nmat E F0 s = N'
-        rw [Matrix.mul_assoc, m1_mul_N hL hO hs, Matrix.mul_one, hN']
-      rw [hs.mat, ← h1]
-      simp only [transpose_mul, Matrix.mul_assoc]
-    cases t with
-    | loc k =>
-      refine ⟨hs.orbFrame, ?_, hs.orb, ?_⟩
-      · intro f hf; simp at hf
-      · exact key _ rfl
-    | frame g =>
-      have hm2 : m2 E.env s (.frame g) = E.conv F0 g := by
-        unfold m2; simp only [RealEnv.env, hs.orbFrame]
-        by_cases hg : F0 = g
-        · simp [hg, hL.conv_self]
-        · simp [hg]
-      unfold reframeOrb
-      by_cases hc : g = s.orbCur
-      · simp only [hc, ne_eq, not_true_eq_false, if_false]
-        refine ⟨hs.orbFrame, ?_, hs.orb, ?_⟩
-        · intro f hf; simp only [Tag.frame.injEq] at hf; exact hf
-        · show _ = E.conv F0 s.orbCur * C0 * (E.conv F0 s.orbCur)ᵀ
-          have := key _ hm2; rw [hc] at this; exact this
-      · simp only [ne_eq, hc, not_false_eq_true, if_true]
-        refine ⟨hs.orbFrame, ?_, ?_, ?_⟩
-        · intro f hf; simp only [Tag.frame.injEq] at hf; exact hf
-        · simp only [RealEnv.env]
-          rw [hs.orb, mulVec_mulVec, hL.conv_comp]
-        · show _ = E.conv F0 g * C0 * (E.conv F0 g)ᵀ
-          exact key _ hm2
+  · rw [if_pos h]; exact ⟨hs, h.symm⟩
+  · rw [if_neg h]
+    refine ⟨⟨hs.orbFrame, hs.orbCur, hs.orb, ?_⟩, rfl⟩
+    have h4 : hopMat E.env s t * Mt E F0 x0 s.tag = Mt E F0 x0 t := by
+      show (m2 E.env s t * m1 E.env s) * _ = _
+      rw [Matrix.mul_assoc, m1_mul_Mt hL hO hs, Matrix.mul_one, m2_eq_Mt hL hs]
+    show hopMat E.env s t * s.mat * (hopMat E.env s t)ᵀ = _
+    rw [hs.mat, ← h4]; simp only [transpose_mul, Matrix.mul_assoc]
+
+theorem inv_run (hL : Laws E) {F0 : F} {x0 : n → ℝ} {C0 : Matrix n n ℝ} (hO : LocOrth E x0)
+    (ts : List (Tag F)) {s : St F (Matrix n n ℝ) (n → ℝ)} (hs : Inv E F0 x0 C0 s) : Inv E F0 x0 C0 (run E.env s ts) := by
+  induction ts generalizing s with
+  | nil => exact hs
+  | cons t ts ih => exact ih (inv_setFrame hL hO hs t).1
 
 omit [Fintype n] [DecidableEq n] in
-theorem setFrame_orbCur_frame (Env' : Env F (Matrix n n ℝ) (n → ℝ)) (s : St F (Matrix n n ℝ) (n → ℝ)) (g : F)
-    (h : Tag.frame g ≠ s.tag) : (setFrame Env' s (.frame g)).orbCur = g := by
-  unfold setFrame
-  rw [if_neg h]
-  show (reframeOrb Env' _ g).orbCur = g
-  unfold reframeOrb
-  split
-  · rfl
-  · rename_i hc; exact (not_not.mp hc).symm
-
-/-- the frame the private copy ends up in: the last non-local target (or where it started) -/
-def lastFrame (f : F) : List (Tag F) → F
-  | [] => f
-  | .frame g :: r => lastFrame g r
-  | .loc _ :: r => lastFrame f r
-
 /-- after any non-empty sequence the tag is the last target -/
 theorem run_tag (Env' : Env F (Matrix n n ℝ) (n → ℝ)) (s : St F (Matrix n n ℝ) (n → ℝ)) (ts : List (Tag F)) (t : Tag F) :
     (run Env' s (ts ++ [t])).tag = t := by
@@ -230,177 +197,54 @@ theorem run_tag (Env' : Env F (Matrix n n ℝ) (n → ℝ)) (s : St F (Matrix n 
   generalize List.foldl (setFrame Env') s ts = s'
   unfold setFrame
   by_cases h : t = s'.tag
-  · simp [h]
-  · simp only [h, if_false]
-    cases t with
-    | loc k => rfl
-    | frame f => exact (reframeOrb_mat _ _ _).2.1
+  · rw [if_pos h]; exact h.symm
+  · rw [if_neg h]
 
-/-- **What the code computes, for every sequence of targets**: starting from a covariance `C0`
-expressed in the frame `F0` of its state `x0`, after the targets `ts` the matrix is `N C0 Nᵀ` where
-`N` is the conversion `F0 → f` when the current tag is the frame `f`, and — for a QSW/TNW tag —
-`to_local` of the original state **re-expressed in the last non-local frame visited**
-(`lastFrame F0 ts`), not of the original inertial state. -/
-theorem path_characterised (hL : Laws E) (F0 : F) (x0 : n → ℝ) (C0 : Matrix n n ℝ) (hO : LocOrth E F0 x0)
+/-- **What the code computes, for every sequence of targets** (simplified since d229088): the
+bookkeeping never moves — `_orb_frame` and the frame of the private copy stay the frame `F0` of the
+state, the private copy stays `x0` — and the matrix is `Mt C0 Mtᵀ` for the *current* tag. -/
+theorem path_characterised (hL : Laws E) (F0 : F) (x0 : n → ℝ) (C0 : Matrix n n ℝ) (hO : LocOrth E x0)
     (ts : List (Tag F)) :
     let s := run E.env (init F0 x0 C0) ts
-    s.orbFrame = F0 ∧ s.orbCur = lastFrame F0 ts ∧ s.orb = E.conv F0 (lastFrame F0 ts) *ᵥ x0 ∧
-      s.mat = Nmat E F0 s * C0 * (Nmat E F0 s)ᵀ := by
-  have hinv : ∀ (ts : List (Tag F)) (s : St F (Matrix n n ℝ) (n → ℝ)), Inv E F0 x0 C0 s →
-      Inv E F0 x0 C0 (run E.env s ts) ∧ (run E.env s ts).orbCur = lastFrame s.orbCur ts := by
-    intro ts
-    induction ts with
-    | nil => intro s hs; exact ⟨hs, rfl⟩
-    | cons t ts ih =>
-      intro s hs
-      have hs' := inv_setFrame hL hO hs t
-      obtain ⟨h1, h2⟩ := ih _ hs'
-      refine ⟨h1, ?_⟩
-      simp only [run, List.foldl_cons] at h2 ⊢
-      rw [h2]
-      -- orbCur after one hop
-      cases t with
-      | loc k =>
-        have : (setFrame E.env s (.loc k)).orbCur = s.orbCur := by
-          unfold setFrame; by_cases h : Tag.loc k = s.tag <;> simp [h]
-        rw [this]; rfl
-      | frame g =>
-        have : (setFrame E.env s (.frame g)).orbCur = g := by
-          by_cases h : Tag.frame g = s.tag
-          · have := hs.cur g h.symm
-            unfold setFrame; simp [h, this]
-          · exact setFrame_orbCur_frame _ _ _ h
-        rw [this]; rfl
-  obtain ⟨h1, h2⟩ := hinv ts _ (inv_init hL F0 x0 C0)
-  refine ⟨h1.orbFrame, h2, ?_, h1.mat⟩
-  rw [h1.orb, h2]; rfl
+    s.orbFrame = F0 ∧ s.orbCur = F0 ∧ s.orb = x0 ∧ s.mat = Mt E F0 x0 s.tag * C0 * (Mt E F0 x0 s.tag)ᵀ := by
+  have h := inv_run hL hO ts (inv_init hL F0 x0 C0)
+  exact ⟨h.orbFrame, h.orbCur, h.orb, h.mat⟩
 
-/-- the matrix the property requires for target `t`: it depends on `t` and on the original state only -/
-def Mt (E : RealEnv F n) (F0 : F) (x0 : n → ℝ) : Tag F → Matrix n n ℝ
-  | .frame f => E.conv F0 f
-  | .loc k => E.toLocal k x0
-
-/-
-Full statement (FALSE of the current code, see Witness/C14.lean `local_after_reframe_differs`):
-
-theorem path_independent (ts : List (Tag F)) (t : Tag F) :
-    (run E.env (init F0 x0 C0) (ts ++ [t])).mat = Mt E F0 x0 t * C0 * (Mt E F0 x0 t)ᵀ
-
-What is missing: for `t = .loc k` with `lastFrame F0 ts ≠ F0` the code uses
-`toLocal k (conv F0 (lastFrame F0 ts) *ᵥ x0)` instead of `toLocal k x0` (`path_characterised`).
--/
-
-/-- **Path independence, the part that holds of the current code**: the result depends only on
-the last target and the original state whenever the last target is a frame, or is QSW/TNW and the
-last non-local frame visited before is the original one (in particular: no frame visited). -/
-theorem path_independent_partial (hL : Laws E) (F0 : F) (x0 : n → ℝ) (C0 : Matrix n n ℝ) (hO : LocOrth E F0 x0)
-    (ts : List (Tag F)) (t : Tag F) (h : (∃ f, t = .frame f) ∨ lastFrame F0 ts = F0) :
+/-- **Path independence** (full statement; before d229088 only `path_independent_partial` held —
+"last target is a frame, or QSW/TNW with the last non-local frame visited being the original one"):
+for every sequence of targets `ts` followed by `t`, the matrix is `Mt C0 Mtᵀ` where `Mt` depends
+only on the last target `t` and on the original state, not on the frames visited before. -/
+theorem path_independent (hL : Laws E) (F0 : F) (x0 : n → ℝ) (C0 : Matrix n n ℝ) (hO : LocOrth E x0)
+    (ts : List (Tag F)) (t : Tag F) :
     (run E.env (init F0 x0 C0) (ts ++ [t])).mat = Mt E F0 x0 t * C0 * (Mt E F0 x0 t)ᵀ := by
-  obtain ⟨_, _, h3, h4⟩ := path_characterised hL F0 x0 C0 hO (ts ++ [t])
-  have htag := run_tag E.env (init F0 x0 C0) ts t
-  have hN : Nmat E F0 (run E.env (init F0 x0 C0) (ts ++ [t])) = Mt E F0 x0 t := by
-    unfold Nmat; rw [htag]
-    cases t with
-    | frame f => rfl
-    | loc k =>
-      simp only [Mt]
-      rcases h with ⟨f, hf⟩ | h
-      · simp at hf
-      · rw [h3]
-        have : lastFrame F0 (ts ++ [Tag.loc k]) = F0 := by
-          have aux : ∀ (l : List (Tag F)) (f : F), lastFrame f (l ++ [Tag.loc k]) = lastFrame f l := by
-            intro l; induction l with
-            | nil => intro f; rfl
-            | cons a l ih => intro f; cases a <;> simp [lastFrame, ih]
-          rw [aux, h]
-        rw [this, hL.conv_self, one_mulVec]
-  rw [h4, hN]
+  have h := (path_characterised hL F0 x0 C0 hO (ts ++ [t])).2.2.2
+  rwa [run_tag] at h
+
+/-- the same, read as "sequence = single hop" -/
+theorem seq_eq_single_hop (hL : Laws E) (F0 : F) (x0 : n → ℝ) (C0 : Matrix n n ℝ) (hO : LocOrth E x0)
+    (ts : List (Tag F)) (t : Tag F) :
+    (run E.env (init F0 x0 C0) (ts ++ [t])).mat = (run E.env (init F0 x0 C0) [t]).mat := by
+  rw [path_independent hL F0 x0 C0 hO ts t]
+  exact (path_independent hL F0 x0 C0 hO [] t).symm
 
 /-- **Converting back restores the original matrix** (whatever was visited in between). -/
-theorem back_restores (hL : Laws E) (F0 : F) (x0 : n → ℝ) (C0 : Matrix n n ℝ) (hO : LocOrth E F0 x0)
+theorem back_restores (hL : Laws E) (F0 : F) (x0 : n → ℝ) (C0 : Matrix n n ℝ) (hO : LocOrth E x0)
     (ts : List (Tag F)) : (run E.env (init F0 x0 C0) (ts ++ [.frame F0])).mat = C0 := by
-  rw [path_independent_partial hL F0 x0 C0 hO ts _ (Or.inl ⟨F0, rfl⟩)]
-  simp [Mt, hL.conv_self]
+  rw [path_independent hL F0 x0 C0 hO]; simp [Mt, hL.conv_self]
 
 /-- **Eigenvalues of the position block are unchanged** along every sequence: the position block
 of the result has the characteristic polynomial of the position block of `C0`. -/
 theorem pos_block_spectrum {m : Type} [Fintype m] [DecidableEq m] {E : RealEnv F (m ⊕ m)} (hL : Laws E)
-    (F0 : F) (x0 : m ⊕ m → ℝ) (C0 : Matrix (m ⊕ m) (m ⊕ m) ℝ) (hO : LocOrth E F0 x0)
-    (hconv : ∀ a b, PosShape (E.conv a b)) (hloc : ∀ k g, PosShape (E.toLocal k (E.conv F0 g *ᵥ x0)))
+    (F0 : F) (x0 : m ⊕ m → ℝ) (C0 : Matrix (m ⊕ m) (m ⊕ m) ℝ) (hO : LocOrth E x0)
+    (hconv : ∀ a b, PosShape (E.conv a b)) (hloc : ∀ k, PosShape (E.toLocal k x0))
     (ts : List (Tag F)) :
     ((run E.env (init F0 x0 C0) ts).mat.toBlocks₁₁).charpoly = C0.toBlocks₁₁.charpoly := by
-  obtain ⟨_, _, h3, h4⟩ := path_characterised hL F0 x0 C0 hO ts
-  have hN : PosShape (Nmat E F0 (run E.env (init F0 x0 C0) ts)) := by
-    unfold Nmat
+  obtain ⟨_, _, _, h4⟩ := path_characterised hL F0 x0 C0 hO ts
+  have hN : PosShape (Mt E F0 x0 (run E.env (init F0 x0 C0) ts).tag) := by
     cases (run E.env (init F0 x0 C0) ts).tag with
     | frame f => exact hconv _ _
-    | loc k => simp only; rw [h3]; exact hloc _ _
+    | loc k => exact hloc k
   rw [h4, pos_block_congruence _ _ hN.1, charpoly_orth_conj _ _ hN.2]
-
-/-! ## The repaired setter (proposed_fixes/C14-cov-private-copy-reframed.diff) -/
-
-/-- **Path independence holds for every sequence once the private copy is no longer re-framed.** -/
-theorem path_independent_fixed (hL : Laws E) (F0 : F) (x0 : n → ℝ) (C0 : Matrix n n ℝ)
-    (hO : ∀ k, (E.toLocal k x0)ᵀ * E.toLocal k x0 = 1) (ts : List (Tag F)) (t : Tag F) :
-    (runFixed E.env (init F0 x0 C0) (ts ++ [t])).mat = Mt E F0 x0 t * C0 * (Mt E F0 x0 t)ᵀ := by
-  have hstep : ∀ (s : St F (Matrix n n ℝ) (n → ℝ)) (t : Tag F),
-      (s.orbFrame = F0 ∧ s.orb = x0 ∧ s.mat = Mt E F0 x0 s.tag * C0 * (Mt E F0 x0 s.tag)ᵀ) →
-      ((setFrameFixed E.env s t).orbFrame = F0 ∧ (setFrameFixed E.env s t).orb = x0 ∧
-        (setFrameFixed E.env s t).tag = t ∧
-        (setFrameFixed E.env s t).mat = Mt E F0 x0 t * C0 * (Mt E F0 x0 t)ᵀ) := by
-    intro s t ⟨h1, h2, h3⟩
-    unfold setFrameFixed
-    by_cases h : t = s.tag
-    · rw [if_pos h]; exact ⟨h1, h2, h.symm, h ▸ h3⟩
-    · rw [if_neg h]
-      refine ⟨h1, h2, rfl, ?_⟩
-      have hm1 : m1 E.env s * Mt E F0 x0 s.tag = 1 := by
-        unfold m1
-        cases hs : s.tag with
-        | loc k => simp only [RealEnv.env, Mt, h2]; exact hO k
-        | frame f =>
-          simp only [RealEnv.env, Mt, h1]
-          by_cases hf : f = F0
-          · simp [hf, hL.conv_self]
-          · simp only [ne_eq, hf, not_false_eq_true, if_true]; rw [hL.conv_comp, hL.conv_self]
-      have hm2 : m2 E.env s t = Mt E F0 x0 t := by
-        unfold m2
-        cases t with
-        | loc k => simp only [RealEnv.env, Mt, h2]
-        | frame g =>
-          simp only [RealEnv.env, Mt, h1]
-          by_cases hg : F0 = g
-          · simp [hg, hL.conv_self]
-          · simp [hg]
-      have h4 : hopMat E.env s t * Mt E F0 x0 s.tag = Mt E F0 x0 t := by
-        show (m2 E.env s t * m1 E.env s) * _ = _
-        rw [Matrix.mul_assoc, hm1, Matrix.mul_one, hm2]
-      show hopMat E.env s t * s.mat * (hopMat E.env s t)ᵀ = _
-      rw [h3, ← h4]; simp only [transpose_mul, Matrix.mul_assoc]
-  have hrun : ∀ (ts : List (Tag F)) (s : St F (Matrix n n ℝ) (n → ℝ)),
-      (s.orbFrame = F0 ∧ s.orb = x0 ∧ s.mat = Mt E F0 x0 s.tag * C0 * (Mt E F0 x0 s.tag)ᵀ) →
-      ((runFixed E.env s ts).orbFrame = F0 ∧ (runFixed E.env s ts).orb = x0 ∧
-        (runFixed E.env s ts).mat = Mt E F0 x0 (runFixed E.env s ts).tag * C0 * (Mt E F0 x0 (runFixed E.env s ts).tag)ᵀ) := by
-    intro ts
-    induction ts with
-    | nil => intro s hs; exact hs
-    | cons a ts ih =>
-      intro s hs
-      obtain ⟨a1, a2, a3, a4⟩ := hstep s a hs
-      simp only [runFixed, List.foldl_cons]
-      exact ih _ ⟨a1, a2, by rw [a3]; exact a4⟩
-  have h0 : (init F0 x0 C0).orbFrame = F0 ∧ (init F0 x0 C0).orb = x0 ∧
-      (init F0 x0 C0).mat = Mt E F0 x0 (init F0 x0 C0).tag * C0 * (Mt E F0 x0 (init F0 x0 C0).tag)ᵀ := by
-    simp [init, St.new, Mt, hL.conv_self]
-  have hmid := hrun ts _ h0
-  simp only [runFixed, List.foldl_append, List.foldl_cons, List.foldl_nil]
-  exact (hstep _ t hmid).2.2.2
-
-/-- back conversion in the repaired model -/
-theorem back_restores_fixed (hL : Laws E) (F0 : F) (x0 : n → ℝ) (C0 : Matrix n n ℝ)
-    (hO : ∀ k, (E.toLocal k x0)ᵀ * E.toLocal k x0 = 1) (ts : List (Tag F)) :
-    (runFixed E.env (init F0 x0 C0) (ts ++ [.frame F0])).mat = C0 := by
-  rw [path_independent_fixed hL F0 x0 C0 hO]; simp [Mt, hL.conv_self]
 
 /-! ## The covariance follows its state -/
 
@@ -408,7 +252,7 @@ theorem back_restores_fixed (hL : Laws E) (F0 : F) (x0 : n → ℝ) (C0 : Matrix
 went through before (`ts`), if it is now tagged with the frame of its state, `sv.frame = g` moves
 it to `g` and its matrix is the single-hop value `M(F0→g) C0 M(F0→g)ᵀ`; a covariance tagged
 otherwise (another frame, QSW/TNW) is left untouched. -/
-theorem cov_follows_state (hL : Laws E) (F0 : F) (x0 : n → ℝ) (C0 : Matrix n n ℝ) (hO : LocOrth E F0 x0)
+theorem cov_follows_state (hL : Laws E) (F0 : F) (x0 : n → ℝ) (C0 : Matrix n n ℝ) (hO : LocOrth E x0)
     (ts : List (Tag F)) (svf g : F) :
     let v : Sv F (Matrix n n ℝ) (n → ℝ) := { frame := svf, cov := run E.env (init F0 x0 C0) ts }
     (svSetFrame E.env v g).frame = g ∧
@@ -426,33 +270,45 @@ theorem cov_follows_state (hL : Laws E) (F0 : F) (x0 : n → ℝ) (C0 : Matrix n
       rw [if_pos htag']
       simp [run, List.foldl_append]
     rw [hrun]
-    exact ⟨run_tag _ _ _ _, path_independent_partial hL F0 x0 C0 hO ts _ (Or.inl ⟨g, rfl⟩)⟩
+    exact ⟨run_tag _ _ _ _, path_independent hL F0 x0 C0 hO ts _⟩
   · intro htag
     have htag' : ¬ (run E.env (init F0 x0 C0) ts).tag = .frame svf := htag
     unfold svSetFrame
     simp only [v]
     rw [if_neg htag']
 
-/-- **`Cov.copy` / `sv.copy()` of a covariance tagged with a frame** is exactly a fresh covariance
-attached to the re-framed state: `_orb_frame` is re-based on the frame of the private copy. -/
-theorem copy_rebases (hL : Laws E) (F0 : F) (x0 : n → ℝ) (C0 : Matrix n n ℝ) (hO : LocOrth E F0 x0)
-    (ts : List (Tag F)) (f : F) (h : (run E.env (init F0 x0 C0) ts).tag = .frame f) :
-    copy (run E.env (init F0 x0 C0) ts) =
-      init f (E.conv F0 f *ᵥ x0) (E.conv F0 f * C0 * (E.conv F0 f)ᵀ) := by
-  have hinv : ∀ (ts : List (Tag F)) (s : St F (Matrix n n ℝ) (n → ℝ)), Inv E F0 x0 C0 s → Inv E F0 x0 C0 (run E.env s ts) := by
-    intro ts; induction ts with
-    | nil => intro s hs; exact hs
-    | cons t ts ih => intro s hs; exact ih _ (inv_setFrame hL hO hs t)
-  have hs := hinv ts _ (inv_init hL F0 x0 C0)
-  generalize run E.env (init F0 x0 C0) ts = s at hs h
-  have hc := hs.cur f h
+/-- **`Cov.copy` is transparent** (before d229088 it re-based `_orb_frame` on the frame of the
+re-framed private copy, `copy_rebases`): the copy of any reachable covariance has the same tag,
+bookkeeping, private state and matrix, so every later conversion of the copy — in particular after
+`sv.copy(frame=…)` — equals the one of the original. -/
+theorem copy_transparent (hL : Laws E) (F0 : F) (x0 : n → ℝ) (C0 : Matrix n n ℝ) (hO : LocOrth E x0)
+    (ts : List (Tag F)) : copy (run E.env (init F0 x0 C0) ts) = run E.env (init F0 x0 C0) ts := by
+  have h := inv_run hL hO ts (inv_init hL F0 x0 C0)
+  generalize run E.env (init F0 x0 C0) ts = s at h
   obtain ⟨tag, oF, oC, orb, mat⟩ := s
-  simp only at h hc
-  have h3 := hs.orb
-  have h4 := hs.mat
-  simp only [Nmat, h, hc] at h3 h4
-  simp [copy, init, St.new, h, hc, h3, h4]
+  have h1 := h.orbFrame
+  have h2 := h.orbCur
+  simp only at h1 h2
+  simp [copy, h1, h2]
 
+/-- `sv.copy(frame=g)` of a state whose covariance is tagged with the state's frame: the new
+state is in `g` and carries the single-hop covariance; `sv.copy()` carries the same covariance. -/
+theorem svCopy_follows (hL : Laws E) (F0 : F) (x0 : n → ℝ) (C0 : Matrix n n ℝ) (hO : LocOrth E x0)
+    (ts : List (Tag F)) (svf g : F) (hne : g ≠ svf) (htag : (run E.env (init F0 x0 C0) ts).tag = .frame svf) :
+    let v : Sv F (Matrix n n ℝ) (n → ℝ) := { frame := svf, cov := run E.env (init F0 x0 C0) ts }
+    (svCopy E.env v none).cov = v.cov ∧ (svCopy E.env v (some g)).frame = g ∧
+    (svCopy E.env v (some g)).cov.tag = .frame g ∧
+    (svCopy E.env v (some g)).cov.mat = E.conv F0 g * C0 * (E.conv F0 g)ᵀ := by
+  intro v
+  have hc := copy_transparent hL F0 x0 C0 hO ts
+  have hf := cov_follows_state hL F0 x0 C0 hO ts svf g
+  simp only at hf
+  have e : svCopy E.env v (some g) = svSetFrame E.env v g := by
+    simp only [svCopy, v, hc, ne_eq, hne, not_false_eq_true, if_true]
+  refine ⟨by simp only [svCopy, v, hc], ?_, ?_, ?_⟩
+  · rw [e]; exact hf.1
+  · rw [e]; exact (hf.2.1 htag).1
+  · rw [e]; exact (hf.2.1 htag).2
 
 /-! ## Which built-in frames are non-rotating (domain of the property), from the source -/
 
@@ -497,11 +353,11 @@ theorem exEnv_laws : Laws exEnv := by
   refine ⟨fun a => by simp [exEnv], fun a b c => ?_⟩
   cases a <;> cases b <;> cases c <;> simp [exEnv, quarter_orth.1, quarter_orth.2]
 
-theorem exEnv_locOrth (x0 : Fin 2 → ℝ) : LocOrth exEnv false x0 := fun _ _ => quarter_orth.1
+theorem exEnv_locOrth (x0 : Fin 2 → ℝ) : LocOrth exEnv x0 := fun _ => quarter_orth.1
 
-/-- the hypotheses of `path_characterised`, `path_independent_partial`, `back_restores`,
-`cov_follows_state`, `copy_rebases` are met by `exEnv` with a non-identity conversion -/
-example : Laws exEnv ∧ LocOrth exEnv false ![1, 0] ∧ exEnv.conv false true ≠ 1 := by
+/-- the hypotheses of `path_characterised`, `path_independent`, `back_restores`,
+`cov_follows_state`, `copy_transparent` are met by `exEnv` with a non-identity conversion -/
+example : Laws exEnv ∧ LocOrth exEnv ![1, 0] ∧ exEnv.conv false true ≠ 1 := by
   refine ⟨exEnv_laws, exEnv_locOrth _, ?_⟩
   intro h
   have := congrFun (congrFun h 0) 0
@@ -529,8 +385,8 @@ theorem exEnv2_laws : Laws exEnv2 := by
 
 example (x0 : Fin 1 ⊕ Fin 1 → ℝ) (C0 : Matrix (Fin 1 ⊕ Fin 1) (Fin 1 ⊕ Fin 1) ℝ) (ts : List (Tag ℤ)) :
     ((run exEnv2.env (init 0 x0 C0) ts).mat.toBlocks₁₁).charpoly = C0.toBlocks₁₁.charpoly :=
-  pos_block_spectrum exEnv2_laws 0 x0 C0 (fun _ _ => by simp [exEnv2])
-    (fun a b => by simp [PosShape, exEnv2, shear]) (fun _ _ => by
+  pos_block_spectrum exEnv2_laws 0 x0 C0 (fun _ => by simp [exEnv2])
+    (fun a b => by simp [PosShape, exEnv2, shear]) (fun _ => by
       unfold PosShape; simp only [exEnv2, ← fromBlocks_one, toBlocks_fromBlocks₁₂, toBlocks_fromBlocks₁₁]; simp) ts
 
 end nonvacuity
